@@ -93,7 +93,12 @@ def omnName (saveFile : List Char) : List Char := saveFile.take (saveFile.length
 theorem C15_file_name_expressions :
     Generated.Session.savNameExpr = "program_info['session_name']+'.sav'" ∧
     Generated.Session.omnNameAtSave = "self.save_file[:-4]+'.omn'" ∧
-    Generated.Session.omnNameAtLoad = "self.save_file[:-4]+'.omn'" := by decide
+    Generated.Session.omnNameAtLoad = "self.save_file[:-4]+'.omn'" ∧
+    -- and these three are the only places of the guesser where a session file is named at all
+    Generated.Session.sessionNameExprs =
+      [("pcfg_guesser.py", "main", "program_info['session_name']+'.sav'"),
+       ("lib_guesser/pcfg_grammar.py", "restore_omen", "self.save_file[:-4]+'.omn'"),
+       ("lib_guesser/pcfg_grammar.py", "omen_generate_guesses", "self.save_file[:-4]+'.omn'")] := by decide
 
 /-- **different session names never share a file**: the `.sav` and the `.omn` file are the session name with a fixed suffix, so two
 sessions that are quit and resumed in any interleaving keep their own queue position and their own pickled OMEN level — for every
